@@ -226,8 +226,9 @@ theorem substr_prepare_exact (ctx : Ctx) (hw : ctx.WF) (L : Nat) (s : Sub) (h : 
   rw [(Sub.prepare_ok ctx hw L s h nd hL hnd).2.1, subSemX_eq_occurs ctx L s h nd]
 
 /-- **`C01_search_exact_substring`**: for every shard (names, contents, liveness) and every match tree whose leaves are
-    case-sensitive substring atoms backed by the true posting lists (ANY selected trigram positions `i ≤ j`; or the
-    `noMatchTree` iterator when the pattern occurs nowhere), document predicates (branch, repository, language,
+    substring atoms backed by the true posting lists — case-sensitive (`mkSub_ok`: ANY selected trigram positions
+    `i ≤ j`) or case-insensitive (`substr_ci_leaf_ok`: merged posting lists of case variants that contain every trigram
+    lower-casing to the pattern's) or the `noMatchTree` iterator when the pattern occurs nowhere —, document predicates (branch, repository, language,
     metadata, set filters), const and engine-decided atoms, combined by and / or / not / type / boost:
     `Search` (prune + document loop + nextDoc + staged evaluation + iterators + verification) returns exactly the
     live documents on which the SCAN meaning `MT.ref` (Spec.lean: substring atoms by scanning every offset of the text)
@@ -256,6 +257,61 @@ theorem C01_search_exact_substring (ctx : Ctx) (hw : ctx.WF) (t0 : MT) (h0 : t0.
     funext d
     rw [MT.ref_eq_semS ctx 0 d t0 h0, show semS ctx d t = semS ctx d t0 from hp d]
 
+/-- **case-insensitive substring leaves under the FoldAgree hypothesis**: if the variant lists of the two selected
+    trigrams contain every rune triple that lower-cases to the (lowered) pattern's trigram — which is what
+    `generateCaseNgrams` yields on runes whose lower-casing and simple case folding agree — then the leaf built over the
+    merged variant posting lists satisfies the leaf invariant `SubOk`, so `C01_search_exact_substring`,
+    `substr_nextDoc_sound` and `substr_prepare_exact` apply to it: its candidates, after `caseFoldingEqualsRunes`,
+    are exactly the case-insensitive occurrences -/
+theorem substr_ci_leaf_ok (ctx : Ctx) (fileName : Bool) (patL : List Nat) (i j : Nat) (vars1 vars2 : List (List Nat))
+    (hij : i ≤ j) (hj : j + 3 ≤ patL.length) (hsz : totalLen (ctx.texts fileName) + patL.length < maxU32)
+    (hv1 : ∀ g', g'.map toLowerRune = tri patL i → g' ∈ vars1)
+    (hv2 : ∀ g', g'.map toLowerRune = tri patL j → g' ∈ vars2) :
+    SubOk ctx 0 (mkSubCI ctx fileName patL i j vars1 vars2) :=
+  mkSubCI_ok ctx fileName patL i j vars1 vars2 hij hj hsz hv1 hv2
+
+/-- the case-sensitive counterpart: a leaf over the true posting lists of ANY two trigram positions `i ≤ j` -/
+theorem substr_cs_leaf_ok (ctx : Ctx) (fileName : Bool) (pat : List Nat) (i j : Nat) (hij : i ≤ j)
+    (hj : j + 3 ≤ pat.length) (hsz : totalLen (ctx.texts fileName) + pat.length < maxU32) :
+    SubOk ctx 0 (mkSub ctx fileName pat i j) :=
+  mkSub_ok ctx fileName pat i j hij hj hsz
+
+/-! non-vacuity (case-insensitive): contents "xAbC", pattern "abc" lowered; the variant list of "abc" is all 8 case variants;
+    the leaf's merged iterator holds the posting 1, and the case-insensitive scan finds the pattern -/
+def exCtxCI : Ctx := ⟨[[110]], [[120, 65, 98, 67]], [true]⟩
+def exVars : List (List Nat) :=
+  [[97, 98, 99], [65, 98, 99], [97, 66, 99], [65, 66, 99], [97, 98, 67], [65, 98, 67], [97, 66, 67], [65, 66, 67]]
+example : variantPostings exVars (exCtxCI.texts false) = [[], [], [], [], [], [1], [], []] := by decide
+example : occurs false [97, 98, 99] (exCtxCI.text false 0) = true := by decide
+example : ∀ g', g'.map toLowerRune = tri [97, 98, 99] 0 → g' ∈ exVars := by
+  intro g' h
+  have hl : g'.length = 3 := by have := congrArg List.length h; simpa [tri] using this
+  match g', hl with
+  | [a, b, c], _ =>
+    simp only [List.map_cons, List.map_nil, tri, List.drop_zero, List.take_succ_cons, List.take_zero,
+      List.cons.injEq, and_true] at h
+    obtain ⟨ha, hb, hc⟩ := h
+    have lowerInv : ∀ x y : Nat, toLowerRune x = y → y < 128 → 97 ≤ y → y ≤ 122 → (x = y ∨ x = y - 32 ∨ (y = 107 ∧ x = 8490)) := by
+      intro x y hxy _ _ _
+      unfold toLowerRune at hxy
+      split at hxy
+      · right; left; omega
+      · split at hxy
+        · omega
+        · split at hxy
+          · omega
+          · split at hxy
+            · omega
+            · split at hxy
+              · right; right; omega
+              · left; omega
+    rcases lowerInv a 97 ha (by omega) (by omega) (by omega) with h1 | h1 | h1 <;>
+    rcases lowerInv b 98 hb (by omega) (by omega) (by omega) with h2 | h2 | h2 <;>
+    rcases lowerInv c 99 hc (by omega) (by omega) (by omega) with h3 | h3 | h3 <;>
+    first
+      | omega
+      | (subst h1; subst h2; subst h3; simp [exVars])
+
 /-! non-vacuity: contents "xabcd", "", "abcabcd"; tree and[substr "abcd" (trigrams 0 and 1), not(name-substr "zzz" whose
     trigram is absent), or[doc-predicate, substr "bca" (single trigram)]] -/
 def exCtxS : Ctx := ⟨[[110], [111], [112]], exTexts, [true, true, true]⟩
@@ -266,10 +322,12 @@ def exTreeS : MT :=
         (.cons (.sub (mkSub exCtxS false [98, 99, 97] 0 0)) .nil))) .nil)))
 example : exCtxS.WF := ⟨rfl, rfl⟩
 example : exTreeS.OkS exCtxS 0 := by
-  refine ⟨mkSub_ok exCtxS false exPat 0 1 (by decide) (by decide) (by decide), ⟨rfl, by decide, ?_⟩,
+  refine ⟨mkSub_ok exCtxS false exPat 0 1 (by decide) (by decide) (by decide), ⟨by decide, ?_⟩,
     ⟨fun h => by simp at h, mkSub_ok exCtxS false [98, 99, 97] 0 0 (by decide) (by decide) (by decide), trivial⟩, trivial⟩
   intro d o h
   unfold occAt at h
+  have hT : Sub.T exCtxS ⟨true, true, [122, 122, 122], Option.none, [], false⟩ = exCtxS.texts true := rfl
+  rw [hT] at h
   have : (exCtxS.texts true).getD d [] = [110] ∨ (exCtxS.texts true).getD d [] = [111] ∨
       (exCtxS.texts true).getD d [] = [112] ∨ (exCtxS.texts true).getD d [] = [] := by
     match d with
